@@ -269,7 +269,20 @@ func (s *scen) doLookup(l *live, depth int) {
 		b.oldRecs = append(b.oldRecs, w)
 	}
 	planted := b.prePlant(s.f)
-	rt, cc, tsr := s.f.Lookup(w, r)
+	var rt *fox.Route
+	var cc fox.ContextCloser
+	var tsr bool
+	via := "Router.Lookup"
+	if b.rnd.Pct(30) {
+		// same code shape in txn.go: a read transaction on the current tree (same pool)
+		via = "Txn.Lookup"
+		txn := s.f.Txn(false)
+		rt, cc, tsr = txn.Lookup(w, r)
+		txn.Abort()
+	} else {
+		rt, cc, tsr = s.f.Lookup(w, r)
+	}
+	b.kinds[via]++
 	rd, _ := fox.VerifRecDump(w)
 	if cc == nil {
 		// which object was used is not visible: only model it when it cannot matter (the object went back to the pool)
